@@ -2,7 +2,11 @@
 
 package font
 
-import "github.com/go-text/typesetting/font/opentype/tables"
+import (
+	"errors"
+
+	"github.com/go-text/typesetting/font/opentype/tables"
+)
 
 // shared between GSUB and GPOS
 type Layout struct {
@@ -179,6 +183,11 @@ func newGSUB(table tables.Layout) (GSUB, error) {
 				}
 			}
 
+			// a null coverage offset yields a nil Coverage, on which Sanitize and the shaper would panic
+			if subtables[j].Cov() == nil {
+				return GSUB{}, errors.New("GSUB: lookup subtable without coverage")
+			}
+
 			// sanitize each lookup
 			switch subtable := subtable.(type) {
 			case tables.MultipleSubs:
@@ -232,6 +241,11 @@ func newGPOS(table tables.Layout) (GPOS, error) {
 				if err != nil {
 					return GPOS{}, err
 				}
+			}
+
+			// a null coverage offset yields a nil Coverage, on which Sanitize and the shaper would panic
+			if subtables[j].Cov() == nil {
+				return GPOS{}, errors.New("GPOS: lookup subtable without coverage")
 			}
 
 			// sanitize each lookup
